@@ -829,7 +829,7 @@ theorem sec_close (orc : Oracle) (r : PM) (parent : Frame) (n3 : Nat) (h : Bnd r
     split
     · left; simp [PM.rejectWith, PM.reject, collapse]
     · simp only [runValid_spec]
-      generalize hp2 : ({ writeBack parent f' with cfg := (writeBack parent f').cfg.setLine f'.cfg.line } : Frame) = p2
+      generalize hp2 : ({ writeBack parent f' with cfg := (writeBack parent f').cfg.afterSection f'.cfg } : Frame) = p2
       cases hv : validVerdict orc (PM.addCalls (PM.addDiags { r with frames := [c.addLine n3, parent], maxDepth := r.maxDepth + 1 } (c.addLine n3) ds) ev).k p2 with
       | none => simp only [Option.map_none]; left; simp [PM.reject, collapse]
       | some cs =>
